@@ -118,9 +118,9 @@ func (l *Loop) ElemOf(v ssa.Value) bool {
 		case *ssa.Field:
 			v = x.X
 		case *ssa.IndexAddr:
-			return l.Body[x.Block()] && Equiv(x.X, coll)
+			return l.Body[x.Block()] && Equiv(x.X, coll) && l.isIndexVar(x.Index)
 		case *ssa.Index:
-			return l.Body[x.Block()] && Equiv(x.X, coll)
+			return l.Body[x.Block()] && Equiv(x.X, coll) && l.isIndexVar(x.Index)
 		case *ssa.Extract:
 			if n, ok := x.Tuple.(*ssa.Next); ok {
 				if r, ok := n.Iter.(*ssa.Range); ok {
@@ -177,3 +177,20 @@ func ForallGuard(l *Loop, guard *ssa.If, failSucc *ssa.BasicBlock, sink ssa.Inst
 
 // IsMapType reports whether t is a map.
 func IsMapType(t types.Type) bool { _, ok := t.Underlying().(*types.Map); return ok }
+
+// isIndexVar: v is the loop's induction variable (a phi in the header), not a constant index.
+func (l *Loop) isIndexVar(v ssa.Value) bool {
+	v = Unwrap(v)
+	if p, ok := v.(*ssa.Phi); ok {
+		return p.Block() == l.Header
+	}
+	// go/ssa range-over-slice: header computes idx = phi + 1 and the body indexes with idx
+	if b, ok := v.(*ssa.BinOp); ok && b.Op == token.ADD && l.Body[b.Block()] {
+		if p, ok := b.X.(*ssa.Phi); ok && p.Block() == l.Header {
+			if k, ok := ConstInt(b.Y); ok && k == 1 {
+				return true
+			}
+		}
+	}
+	return false
+}
